@@ -328,6 +328,10 @@ class Case:
             opts = o2 or opts
         transfer, pathdir, mode = rng.choice(opts)
         src_bytes = self.w.file_on(src, f)
+        if mode == "truncate" and (src_bytes is None or len(src_bytes) < 2 or worldmod.md5(src_bytes) != f.md5sum):
+            # the truncating copy is only meaningful on an intact source of at least two bytes (half of a damaged or tiny file
+            # could coincide with the registered content)
+            return self.step_pull(req_row, dest, want=("ok", "none", "ok"))
         local = src.host == "h1"
         same_arch = (src.storage_type == "A") == (dest.storage_type == "A")
         # what will really happen (the scripted mode is only reached through some tools)
@@ -366,11 +370,6 @@ class Case:
                     fh_.truncate(max(0, os.path.getsize(out) // 2))
                 return out
             _sh.copy2 = short_copy2
-            if src_bytes is None:
-                transfer = "failedCheckSrc"
-            elif len(src_bytes) < 2:
-                transfer = "ok" if len(src_bytes) == 0 else "digestMismatch"
-            line = f"w.op pull {self.req_str(req_row)} {dest.id} {transfer}"
         try:
             if f.size_b is not None:
                 io.reserve_bytes(f.size_b)
